@@ -363,6 +363,26 @@ func runC01Flow(t *fw.T) {
 	}
 }
 
+// programs at the boundary of the subset: spellings that the pinned parser rejects (decimal integers of 2^63 and more,
+// written where the printer treats integer and fractional literals differently). While the parser rejects them they are
+// outside the premise and only counted; a parser that accepts them owes them the same behaviour as any other program.
+var c01Boundary = []string{
+	"print(9223372036854775808 .toString(2))", "print(18446744073709551616 .toString(16))", "let o = {}\nprint(99999999999999999999999 .constructor == o.x)",
+	"print(9223372036854775808)", "print(18446744073709551616 + 1)", "let b = 9223372036854775808\nprint(b . toString())", "print([18446744073709551616][0] .toFixed(0))",
+	"print(123456789012345678901234567890 .toExponential(3))", "print(-9223372036854775808 .toString())", "print(340282366920938463463374607431768211456 % 7)",
+}
+
+func runC01Boundary(t *fw.T) {
+	src := c01Boundary[t.Index]
+	if po := parse(src, Mode{}); po.Err != nil {
+		t.Count("boundary_programs_rejected_by_the_parser_outside_the_premise", 1)
+		return
+	}
+	t.Count("boundary_programs_accepted_and_judged", 1)
+	checkBehaviour(t, src, "subset boundary", AllCodeCfgs())
+	t.Distinct(src)
+}
+
 func runC01Hazards(t *fw.T) {
 	src := c01Hazards[t.Index]
 	checkBehaviour(t, src, "hand-written", AllCodeCfgs())
@@ -381,6 +401,7 @@ func init() {
 		Teardown: closeEngine,
 		Strata: []*fw.Stratum{
 			{Name: "hazards", Quick: len(c01Hazards), Thorough: len(c01Hazards), Exhaustive: true, Run: runC01Hazards},
+			{Name: "subset-boundary", Quick: len(c01Boundary), Thorough: len(c01Boundary), Exhaustive: true, Run: runC01Boundary},
 			{Name: "programs", Quick: 10000, Thorough: 60000, Run: runC01},
 			{Name: "control-flow-shapes", Quick: 2500, Thorough: 20000, Run: runC01Flow},
 		},
